@@ -30,7 +30,9 @@ def store_view(w, keys):
     return {str(k): w.op(["memento", k[0], k[1], k[2]])[0] for k in sorted(keys)}
 
 
-def trial(prog, backend, pre, f, args, ctx, rf, use_map, use_model, root_dir):
+def trial(prog, backend, pre, f, args, ctx, rf, use_map, use_model, root_dir, warm=None):
+    """warm: None, or the sub-list of `pre` that is called again after the store was re-opened in a new session (so these
+    elements are in the memory cache and the rest of `pre` is on disk only when the batch starts)"""
     res = dict(fails=[], mismatch=[])
     cnum = 0 if ctx == "i" else ctx
     wa = progs.RunWorld(prog, backend=backend, root=root_dir, use_model=use_model)
@@ -39,6 +41,11 @@ def trial(prog, backend, pre, f, args, ctx, rf, use_map, use_model, root_dir):
         for a in pre:
             wa.op(["call", f, a, ctx, False, False])
             wb.op(["call", f, a, ctx, False, False])
+        if warm is not None:
+            for w_ in (wa, wb):
+                w_.reopen()
+                for a in warm:
+                    w_.op(["call", f, a, ctx, False, False])
         if use_map:
             progs.REC.calls.clear()
             try:
@@ -145,12 +152,13 @@ def typed_batches(chk, rng, root_dir, n):
 def main(chk, replay=None):
     if replay is not None:
         r = trial(replay["program"], replay["backend"], replay["pre"], replay["f"], replay["args"], replay["ctx"], replay["rf"],
-                  replay["use_map"], False, None)
+                  replay["use_map"], False, None, replay.get("warm"))
         print(json.dumps(dict(still_fails=bool(r["fails"]), observed=r["fails"][:3]), default=str))
         return 1 if r["fails"] else 0
     chk.rule = ("generated programs; batches of length 0..6 over arguments {0..3} with duplicates and failing elements x subsets "
                 "of the elements memoized beforehand (quick: random; thorough: all subsets of the distinct elements) x "
-                "raise_first_exception x context x {call_batch, map_over_range on duplicate-free ranges} x backends. "
+                "raise_first_exception x context x {call_batch, map_over_range on duplicate-free ranges} x backends x {same session, "
+                "store re-opened in a new session with a subset cached again}. "
                 "Distinct = distinct trial; non-trivial = batch has >= 2 elements.")
     proof_ok = chk.build_and_audit()
     quick = chk.tier == "quick"
@@ -175,7 +183,11 @@ def main(chk, replay=None):
                 pres = [list(c) for r in range(len(distinct) + 1) for c in itertools.combinations(distinct, r)]
             for pre in pres:
                 use_map = len(set(args)) == len(args) and len(args) > 0 and rng.random() < 0.25
-                r = trial(prog, backend, pre, f, args, ctx, rf, use_map, proof_ok, chk.tmpdir())
+                warm = None
+                if backend != "memory" and pre and rng.random() < 0.5:
+                    warm = [a for a in pre if rng.random() < 0.5]        # new session: these are cached again, the others are on disk only
+                    chk.count("new-session-before-batch")
+                r = trial(prog, backend, pre, f, args, ctx, rf, use_map, proof_ok, chk.tmpdir(), warm)
                 chk.case([prog, backend, pre, f, args, ctx, rf, use_map], nontrivial=len(args) >= 2,
                          sample=dict(f=f, args=args, pre=pre, ctx=ctx, raise_first=rf, map_over_range=use_map, backend=backend))
                 chk.count("mode:" + ("map_over_range" if use_map else "call_batch"))
@@ -188,7 +200,7 @@ def main(chk, replay=None):
                     chk.violation({"what": "batch differs from element-wise evaluation: %s" % fl["clause"],
                                    "class": {"clause": fl["clause"], "map_over_range": use_map},
                                    "program": prog, "backend": backend, "pre": pre, "f": f, "args": args, "ctx": ctx, "rf": rf,
-                                   "use_map": use_map, "observed": r["fails"][:2], "source": progs.render(prog, "replay")})
+                                   "use_map": use_map, "warm": warm, "observed": r["fails"][:2], "source": progs.render(prog, "replay")})
         if reported >= 4:
             break
 
